@@ -84,6 +84,32 @@ fn memo_inputs(tier: Tier) -> InputSpec {
     InputSpec::Strings { alphabet: vec!['b', 'c', 'x'], max_len: if tier == Tier::Quick { 4 } else { 5 } }
 }
 
+/// the same family with every assignment of skipping / @no_skip_ws to (Root, A, B): a memoized rule is
+/// then reached from skipping and non-skipping callers at one raw offset with whitespace in between
+pub fn memo_bases_mixed_skip(tier: Tier) -> Vec<(Grammar, Vec<String>)> {
+    let all = memo_bases(Tier::Quick);
+    let step = if tier == Tier::Quick { 9 } else { 2 };
+    let mut out = Vec::new();
+    for (g, names) in all.into_iter().step_by(step) {
+        for skipmask in 1u32..8 {
+            let mut g2 = g.clone();
+            for (i, n) in ["Root", "A", "B"].iter().enumerate() {
+                if skipmask & (1 << i) != 0 {
+                    if let Some(r) = g2.rules.iter_mut().find(|r| &r.name == n) {
+                        r.directives.retain(|d| *d != Directive::NoSkipWs);
+                    }
+                }
+            }
+            out.push((g2, names.clone()));
+        }
+    }
+    out
+}
+
+fn memo_inputs_ws(tier: Tier) -> InputSpec {
+    InputSpec::Strings { alphabet: vec!['b', 'c', 'x', ' '], max_len: if tier == Tier::Quick { 4 } else { 5 } }
+}
+
 pub fn c05(tier: Tier) -> Vec<Case> {
     let mut b = Builder::new();
     let inputs = memo_inputs(tier);
@@ -92,6 +118,14 @@ pub fn c05(tier: Tier) -> Vec<Case> {
         for (vi, mask) in subsets(names.len()).into_iter().enumerate() {
             let gv = with_memo(&g, &names, mask);
             b.add_variant(grp, vi, "memo-subsets", gv, inputs.clone(), &format!("mask{mask}"));
+        }
+    }
+    let inputs = memo_inputs_ws(tier);
+    for (g, names) in memo_bases_mixed_skip(tier) {
+        let grp = b.new_group();
+        for (vi, mask) in subsets(names.len()).into_iter().enumerate() {
+            let gv = with_memo(&g, &names, mask);
+            b.add_variant(grp, vi, "memo-subsets/mixed-skip", gv, inputs.clone(), &format!("mask{mask}"));
         }
     }
     b.cases
@@ -549,6 +583,10 @@ pub fn c20(tier: Tier) -> Vec<Case> {
         }
         b.add("pure/memo", with_memo(&g, &names, 7), InputSpec::Strings { alphabet: vec!['b', 'c', 'x'], max_len: 3 });
         k += 1;
+    }
+    // skipping rules and whitespace in the inputs (hidden state in whitespace handling)
+    for (g, names) in memo_bases_mixed_skip(Tier::Quick).into_iter().step_by(13).take(n / 4) {
+        b.add("pure/memo-skip", with_memo(&g, &names, 7), InputSpec::Strings { alphabet: vec!['b', 'x', ' '], max_len: 3 });
     }
     let lr = c07(Tier::Quick);
     let step = (lr.len() / (n / 2)).max(1);
